@@ -222,6 +222,7 @@ def recipients(ctx):
 
 @PROP.obligation('C07.explicit-inputs', canaries=[
     mut.replace_expr(W, 'Wallet.transaction_create', "int.from_bytes(output_n, 'big')", "int.from_bytes(output_n, 'little')", 'outpoint index of an Input object byte-swapped'),
+    mut.replace_stmt(W, 'Wallet.transaction_create', 'value = inp_utxo.value', 'if not value:\n    value = inp_utxo.value', 'caller-supplied amount trusted over the stored output'),
 ])
 def explicit_inputs(ctx):
     """Explicit inputs: the outpoint index of an Input object (stored 4 bytes big-endian) is converted with 'big'; the value added to
@@ -245,6 +246,20 @@ def explicit_inputs(ctx):
     for c in adds:
         kw = {k.arg: unparse(k.value) for k in c.keywords}
         ctx.require(kw.get('value') == 'value' and unparse(c.args[1]) == 'output_n', q, 'explicit input added with value=%s index=%s' % (kw.get('value'), unparse(c.args[1])), c)
+    # when the wallet knows the outpoint, the recorded amount and key are authoritative: assigned unconditionally in the found-branch
+    rows = [n for n in ast.walk(fn) if isinstance(n, ast.Assign) and isinstance(n.targets[0], ast.Name) and any(x.node is n.value or x.node in list(ast.walk(n.value)) for x in qs)]
+    found = [n for n in ast.walk(fn) if isinstance(n, ast.If) and isinstance(n.test, ast.Name) and n.test.id in [r.targets[0].id for r in rows]]
+    if not found:
+        ctx.undecided('transaction_create: branch for an outpoint found in the wallet not recognised')
+    for br in found:
+        row = br.test.id
+        for col in ('value', 'key_id'):
+            top = [x for x in br.body if isinstance(x, ast.Assign) and norm(x.targets[0]) == col and norm(x.value) == '%s.%s' % (row, col)]
+            nested = [x for x in ast.walk(br) if isinstance(x, ast.Assign) and norm(x.targets[0]) == col and x not in top and x in [y for b in br.body for y in ast.walk(b)]]
+            ctx.saw('outpoint found in the wallet: %s %s' % (col, 'taken from the stored output' if top else 'NOT unconditionally taken from the stored output'))
+            if not top:
+                ctx.violate(q, 'for an outpoint the wallet knows, %s is %s' % (col, ('only conditionally replaced by the stored one (`%s`)' % norm(nested[0])[:60]) if nested else 'not taken from the stored output'), br,
+                            'amount_total_input, change and fee are computed from the amount the caller claims: with an overstated value the wallet signs a transaction whose real fee is negative / whose outputs exceed its inputs')
 
 
 @PROP.obligation('C07.explicit-unspent')
